@@ -420,12 +420,121 @@ func (x *sess) exec(op string) string {
 		off, err := x.de.Done()
 
 		return fmt.Sprintf("%d %s", off, class(err))
+	case "h", "rh":
+		return x.execHelper(f)
 	}
 	if strings.HasPrefix(f[0], "w") {
 		return x.execWrite(f)
 	}
 
 	return x.execRead(f)
+}
+
+// execHelper: Do / AbortIf / WithValidation of the Serializer (`h`) and the Deserializer (`rh`).
+func (x *sess) execHelper(f []string) string {
+	onSer := f[0] == "h"
+	if onSer && x.ser == nil {
+		x.ser = serializer.NewSerializer()
+	}
+	if !onSer && x.de == nil {
+		return "bad-op"
+	}
+	called := "skipped"
+	producer := func(fail string) error {
+		if fail == "1" {
+			return errItem
+		}
+
+		return nil
+	}
+	var before []byte
+	if !onSer {
+		before = append([]byte{}, x.src...)
+	}
+	w0, e0 := 0, "-"
+	if onSer {
+		w0, e0 = x.serState()
+	} else {
+		o, err := x.de.Done()
+		w0, e0 = o, class(err)
+	}
+	p := hx.Safely(func() {
+		switch f[1] {
+		case "do":
+			fn := func() { called = "called" }
+			if onSer {
+				x.ser.Do(fn)
+			} else {
+				x.de.Do(fn)
+			}
+		case "abortif":
+			fn := func(err error) error {
+				called = "called"
+				if err != nil {
+					x.fail("helper", "AbortIf handed a non-nil error to its producer", "abortif-arg")
+				}
+
+				return producer(f[2])
+			}
+			if onSer {
+				x.ser.AbortIf(fn)
+			} else {
+				x.de.AbortIf(fn)
+			}
+		case "wv":
+			fn := func(b []byte, err error) error {
+				called = "given:" + hx.Hex(b)
+				if err != nil {
+					x.fail("helper", "WithValidation handed a non-nil error to its producer", "wv-arg")
+				}
+
+				return producer(f[3])
+			}
+			if onSer {
+				x.ser.WithValidation(modeOf(f[2]), fn)
+			} else {
+				x.de.WithValidation(modeOf(f[2]), fn)
+			}
+		}
+	})
+	if p != "" {
+		return "panic"
+	}
+	w1, e1 := 0, "-"
+	if onSer {
+		w1, e1 = x.serState()
+	} else {
+		o, err := x.de.Done()
+		w1, e1 = o, class(err)
+		if !bytes.Equal(before, x.src) {
+			x.fail("aliasing", fmt.Sprintf("%v changed the source buffer", f), "read-mutates-source")
+		}
+	}
+	// independent of Lean: a helper never moves Written() / the offset, is skipped under a stored error, and only the
+	// producer's verdict is stored
+	if w1 != w0 {
+		x.fail("helper", fmt.Sprintf("%v moved Written()/offset from %d to %d", f, w0, w1), "helper-moves")
+	}
+	if e0 != "-" && (called != "skipped" || e1 != e0) {
+		x.fail("sticky", fmt.Sprintf("%v under the stored error %s: callback %s, error now %s", f, e0, called, e1), "helper")
+	}
+	if e0 == "-" {
+		wantErr := "-"
+		if called != "skipped" && ((f[1] == "abortif" && f[2] == "1") || (f[1] == "wv" && f[3] == "1")) {
+			wantErr = "item"
+		}
+		if e1 != wantErr {
+			x.fail("helper", fmt.Sprintf("%v: callback %s, stored error %s, expected %s", f, called, e1, wantErr), "helper-error")
+		}
+		if f[1] == "wv" && !strings.HasPrefix(f[2], "v") && called != "skipped" {
+			x.fail("helper", fmt.Sprintf("%v: producer called without the validation bit", f), "wv-mode")
+		}
+		if (f[1] != "wv" || strings.HasPrefix(f[2], "v")) && called == "skipped" {
+			x.fail("helper", fmt.Sprintf("%v: callback not called although no error is stored", f), "helper-skipped")
+		}
+	}
+
+	return fmt.Sprintf("%s %d %s", called, w1, e1)
 }
 
 // checkHanded: objects handed out must not be views into the source: overwrite the source and compare.
@@ -650,6 +759,17 @@ func genCall(rng *hx.Rng) call {
 	}
 }
 
+func genHelper(rng *hx.Rng) string {
+	switch rng.Intn(3) {
+	case 0:
+		return "do"
+	case 1:
+		return "abortif " + hx.Pick(rng, []string{"0", "0", "0", "1"})
+	default:
+		return "wv " + hx.Pick(rng, []string{"v", "n", "vs"}) + " " + hx.Pick(rng, []string{"0", "0", "0", "1"})
+	}
+}
+
 func genCase(r *hx.Run, rng *hx.Rng, sub uint64) {
 	r.Case(sub)
 	x := &sess{r: r}
@@ -660,6 +780,9 @@ func genCase(r *hx.Run, rng *hx.Rng, sub uint64) {
 	okAll := true
 	prev := 0
 	for i := 0; i < n; i++ {
+		if rng.Chance(1, 4) {
+			x.line("o h " + genHelper(rng))
+		}
 		c := genCall(rng)
 		ans := x.line(c.w)
 		r.Count("w:" + strings.Fields(c.w)[1])
@@ -697,6 +820,15 @@ func genCase(r *hx.Run, rng *hx.Rng, sub uint64) {
 	x.line("o rnew " + hx.Hex(append(append([]byte{}, data...), tail...)))
 	off := 0
 	for i, c := range calls {
+		if rng.Chance(1, 4) {
+			h := genHelper(rng)
+			if strings.HasSuffix(h, " 1") && rng.Chance(2, 3) {
+				h = h[:len(h)-1] + "0" // mostly accepting: a stored error ends the round-trip part of the case
+			}
+			if a := x.line("o rh " + h); !strings.HasSuffix(a, " -") {
+				okAll = false
+			}
+		}
 		ans := x.line(c.r)
 		f := strings.Fields(ans)
 		r.Count("r:" + strings.Fields(c.r)[1])
@@ -757,6 +889,9 @@ var corpus = [][]string{
 		"o rnew 00", "o rslice u8 v 0 0 - 1 u8 1 nil", "o rdone", "o rnew 0001", "o rslice u64 v 0 0 - - u8 1 nil", "o rdone"},
 	// sticky errors on both chains
 	{"o new", "o wobj v 1 u8 1 00", "o wobj v - u8 2 00", "o wpay nil nil", "o ser", "o rnew 0100", "o robj u8 2", "o robj u8 1", "o rpay 1", "o rdone"},
+	// chain helpers: Do / AbortIf / WithValidation on both chains, skipped under a stored error
+	{"o new", "o h do", "o wobj n - u8 1 aa", "o h wv v 0", "o h wv n 1", "o h abortif 0", "o h wv vs 1", "o h do", "o h abortif 1", "o h wv v 0", "o ser",
+		"o rnew 0101aa02", "o rh wv v 0", "o robj u8 1", "o rh wv v 0", "o rh do", "o rh abortif 1", "o rh do", "o rh wv v 0", "o robj u8 2", "o rdone"},
 	// data too long for the length byte: Serialize refuses
 	{"o new", "o wslice u8 n 0 0 - - nil u8 1:" + strings.Repeat("00", 256), "o ser"},
 }
